@@ -30,6 +30,7 @@ import (
 	"testing"
 
 	metadb "github.com/WuKongIM/WuKongIM/pkg/db/meta"
+	"github.com/WuKongIM/WuKongIM/pkg/protocol/channelid"
 	"github.com/WuKongIM/WuKongIM/pkg/slot/fsm"
 	"github.com/WuKongIM/WuKongIM/pkg/slot/multiraft"
 	"github.com/WuKongIM/WuKongIM/pkg/zzverif/ev"
@@ -90,6 +91,8 @@ func c13Menu(size string) []c13Cmd {
 	t2.TargetNode, t2.DesiredLeader = 3, 3
 	fail := metadb.ChannelMigrationTaskAdvance{Guard: c13TaskGuard(t1), Status: metadb.ChannelMigrationStatusFailed, Phase: t1.Phase,
 		UpdatedAtMS: 200, CompletedAtMS: 200, LastError: "boom"}
+	t0 := c13Task("T0") // created already terminal: garbage-collectable without any same-batch predecessor
+	t0.Status, t0.CompletedAtMS, t0.UpdatedAtMS = metadb.ChannelMigrationStatusFailed, 150, 150
 	userTrunc := fsm.EncodeUpsertUserCommand(metadb.User{UID: "u1", Token: "a"})
 	userTrunc = userTrunc[:len(userTrunc)-3]
 
@@ -108,6 +111,7 @@ func c13Menu(size string) []c13Cmd {
 		mk("mig-create:T1", "valid", c13HS, fsm.EncodeCreateChannelMigrationTaskCommand(t1)),
 		mk("mig-fail:T1", "stale", c13HS, fsm.EncodeAdvanceChannelMigrationTaskCommand(fail)),
 		mk("mig-create:T2", "conflict", c13HS, fsm.EncodeCreateChannelMigrationTaskCommand(t2)),
+		mk("mig-create-terminal:T0", "valid", c13HS, fsm.EncodeCreateChannelMigrationTaskCommand(t0)),
 		mk("mig-gc:before1000", "valid", c13HS, fsm.EncodeGarbageCollectTerminalChannelMigrationTasksCommand(metadb.ChannelMigrationTaskGCRequest{BeforeMS: 1000, Limit: 10})),
 	}
 	coreBad := []c13Cmd{
@@ -120,17 +124,33 @@ func c13Menu(size string) []c13Cmd {
 			return fsm.EncodeUpsertChannelRuntimeMetaCommand(m)
 		}()),
 	}
-	if size == "small" {
-		// depth-4 menu: the commands with commit-time conditions, which is where batching matters
-		keep := map[string]bool{"user-upsert": true, "user-create": true, "chan-create": true, "sub-add": true, "sub-rm": true,
-			"rtm-upsert": true, "ret-adv": true, "mig-create": true, "mig-fail": true, "mig-gc": true}
+	pick := func(labels ...string) []c13Cmd {
 		var out []c13Cmd
-		for _, c := range core {
-			if keep[c.kind()] && c.label != "rtm-upsert:c1:e1l1L2" {
-				out = append(out, c)
+		for _, l := range labels {
+			found := false
+			for _, c := range append(append([]c13Cmd{}, core...), coreBad...) {
+				if c.label == l {
+					out, found = append(out, c), true
+				}
+			}
+			if !found {
+				panic("c13: no menu entry " + l)
 			}
 		}
-		return append(out, coreBad[0], coreBad[2])
+		return out
+	}
+	switch size {
+	case "mini":
+		// quick depth-3 menu: one command per commit-time mechanism (create-only row, channel delete vs subscriber rows,
+		// subscriber mutation version, monotonic runtime meta + conflict, guarded retention advance, task create + guarded advance)
+		return pick("user-upsert:u1:a", "user-create:u1:b", "chan-del:c1", "sub-add:c1:u1,u2:v2", "sub-rm:c1:u1:v1",
+			"rtm-upsert:c1:e1l1L1", "rtm-upsert:c1:e1l1L2", "ret-adv:c1:e1l1L1:seq5", "mig-create:T1", "mig-fail:T1",
+			"bad-type:0xff", "notowned-envelope:user-upsert", "bad-semantic:rtm-minisr")
+	case "small":
+		// depth-4 menu
+		return pick("user-create:u1:b", "chan-create:c1", "sub-add:c1:u1,u2:v2", "sub-rm:c1:u1:v1",
+			"rtm-upsert:c1:e1l1L1", "ret-adv:c1:e1l1L1:seq5", "mig-create:T1", "mig-fail:T1", "mig-create-terminal:T0", "mig-gc:before1000",
+			"bad-trunc:user-upsert", "notowned-envelope:user-upsert")
 	}
 	if size == "core" {
 		return append(core, coreBad...)
@@ -206,7 +226,8 @@ func c13ExtraEncodings() []c13Cmd {
 	mem := metadb.UserChannelMembership{UID: "u1", ChannelID: "c1", ChannelType: 2, JoinSeq: 1, ReadSeq: 2, DeletedToSeq: 1, ActivatedAt: 3, SourceVersion: 1, UpdatedAt: 5}
 	cmdMem := metadb.UserCMDChannelMembership{UID: "u1", CommandChannelID: "c1____cmd", ChannelType: 2, StartSeq: 1, AckSeq: 1, UpdatedAt: 5}
 	evt := metadb.MessageEventAppend{ChannelID: "c1", ChannelType: 2, ClientMsgNo: "n1", EventID: "e1", EventKey: "k", EventType: "t", Visibility: "public", OccurredAt: 1, Payload: []byte("{}"), UpdatedAt: 1}
-	personMeta := metadb.ChannelRuntimeMeta{ChannelID: "u1@u2", ChannelType: 1, ChannelEpoch: 1, LeaderEpoch: 1, Replicas: []uint64{1}, ISR: []uint64{1}, Leader: 1, MinISR: 1, Status: 1}
+	person := channelid.EncodePersonChannel("u1", "u2")
+	personMeta := metadb.ChannelRuntimeMeta{ChannelID: person, ChannelType: 1, ChannelEpoch: 1, LeaderEpoch: 1, Replicas: []uint64{1}, ISR: []uint64{1}, Leader: 1, MinISR: 1, Status: 1}
 	return []c13Cmd{
 		mk("mig-create-guarded:T3", fsm.EncodeCreateChannelMigrationTaskWithRuntimeGuardCommand(metadb.ChannelMigrationTaskCreate{Task: c13Task("T3"), RuntimeGuard: rg})),
 		mk("mig-claim:T1", fsm.EncodeClaimChannelMigrationTaskCommand(metadb.ChannelMigrationTaskClaim{Guard: g, Status: run, Phase: t1.Phase, OwnerNodeID: 1, OwnerLeaseUntilMS: 900, NowMS: 150, UpdatedAtMS: 150})),
@@ -228,9 +249,9 @@ func c13ExtraEncodings() []c13Cmd {
 		mk("event-append-batch:c1", fsm.EncodeAppendMessageEventsCommand([]metadb.MessageEventAppend{evt})),
 		mk("plugin-bind:u1", fsm.EncodeBindPluginUserCommand(metadb.PluginUserBinding{UID: "u1", PluginNo: "p1", CreatedAtMS: 1, UpdatedAtMS: 1})),
 		mk("plugin-unbind:u1", fsm.EncodeUnbindPluginUserCommand("u1", "p1")),
-		mk("person-admit:u1@u2", must(fsm.EncodeAdmitPersonDirectoryTaskBatchCommandChecked([]fsm.PersonDirectoryAdmissionBatchItem{{HashSlot: c13HS, Task: metadb.PersonDirectoryTask{ChannelID: "u1@u2", ChannelType: 1, CommittedTail: 1, CreatedAt: 1}, RuntimeMeta: personMeta}}))),
-		mk("person-ensure:u1", must(fsm.EncodeEnsureUserChannelMembershipBatchCommandChecked([]fsm.UserChannelMembershipBatchItem{{HashSlot: c13HS, Membership: metadb.UserChannelMembership{UID: "u1", ChannelID: "u1@u2", ChannelType: 1, SourceVersion: 1, UpdatedAt: 1}}}))),
-		mk("person-complete:u1@u2", must(fsm.EncodeCompletePersonDirectoryTaskBatchCommandChecked([]fsm.PersonDirectoryCompletionBatchItem{{HashSlot: c13HS, ChannelID: "u1@u2", ChannelType: 1, Generation: 1}}))),
+		mk("person-admit:u1@u2", must(fsm.EncodeAdmitPersonDirectoryTaskBatchCommandChecked([]fsm.PersonDirectoryAdmissionBatchItem{{HashSlot: c13HS, Task: metadb.PersonDirectoryTask{ChannelID: person, ChannelType: 1, CommittedTail: 1, CreatedAt: 1}, RuntimeMeta: personMeta}}))),
+		mk("person-ensure:u1", must(fsm.EncodeEnsureUserChannelMembershipBatchCommandChecked([]fsm.UserChannelMembershipBatchItem{{HashSlot: c13HS, Membership: metadb.UserChannelMembership{UID: "u1", ChannelID: person, ChannelType: 1, SourceVersion: 1, UpdatedAt: 1}}}))),
+		mk("person-complete:u1@u2", must(fsm.EncodeCompletePersonDirectoryTaskBatchCommandChecked([]fsm.PersonDirectoryCompletionBatchItem{{HashSlot: c13HS, ChannelID: person, ChannelType: 1, Generation: 1}}))),
 		mk("hs-apply-delta:user", fsm.EncodeApplyDeltaCommand(multiraft.SlotID(5), 11, c13HS, fsm.EncodeUpsertUserCommand(metadb.User{UID: "u3", Token: "d"}))),
 		mk("hs-enter-fence:3", fsm.EncodeEnterFenceCommandForTarget(c13HS, multiraft.SlotID(8))),
 		mk("hs-ack-outbox:3", fsm.EncodeAckHashSlotMigrationOutboxCommand(c13HS, multiraft.SlotID(c13Slot), multiraft.SlotID(8), 1)),
@@ -556,15 +577,30 @@ func (in *c13Inst) Check() (verr error) {
 	if t.errAt >= 0 {
 		good = t.errAt
 	}
+	// Prefix positions: the proper prefixes of this log were checked as logs of their own up to their end; here every
+	// run continues to the end of this log. For a log that ends in a refused command only the longest good prefix is
+	// restarted / snapshotted (shorter prefixes were covered by the log without the refused command).
+	first := 1
+	if t.errAt >= 0 {
+		first = good
+	}
 	// (c) restart at every prefix
-	for k := 1; k <= good; k++ {
+	for k := first; k <= good; k++ {
+		if k == 0 {
+			continue
+		}
 		if err := in.sys.runRestart(t, k); err != nil {
 			return err
 		}
 	}
-	// (d) snapshot at every prefix -> restore into a fresh DB -> apply the rest
-	for k := 0; k <= good; k++ {
+	// (d) snapshot at every prefix -> restore into a fresh DB -> apply the rest (the empty snapshot, k=0, once per first command)
+	for k := first; k <= good; k++ {
 		if err := in.sys.runSnapshot(t, k); err != nil {
+			return err
+		}
+	}
+	if n == 1 && good == 1 {
+		if err := in.sys.runSnapshot(t, 0); err != nil {
 			return err
 		}
 	}
@@ -811,7 +847,8 @@ func c13RunLogs(r *ev.R, name, menuSize string, depth int) (*c13Sys, mc.Result) 
 type c13Garbage struct {
 	node     *c13Node
 	seedSnap []byte
-	cur      []byte
+	cur      []byte // snapshot the node currently holds
+	curIdx   uint64 // durable applied index the node currently holds
 	idx      uint64
 }
 
@@ -840,7 +877,7 @@ func c13NewGarbage() *c13Garbage {
 			panic(fmt.Sprintf("c13 harness: seeding %s failed: %v", c.label, err))
 		}
 	}
-	g.seedSnap, _ = n.state()
+	g.seedSnap, g.curIdx = n.state()
 	g.cur = g.seedSnap
 	return g
 }
@@ -848,7 +885,7 @@ func c13NewGarbage() *c13Garbage {
 // feed applies one payload as its own batch and returns (outcome label, violation).
 func (g *c13Garbage) feed(hs uint16, data []byte, what string) (string, *ev.Violation) {
 	g.idx++
-	_, a0 := g.node.state()
+	a0 := g.curIdx
 	res, err := g.node.apply([]c13Cmd{{label: what, slot: c13Slot, hs: hs, data: data}}, g.idx)
 	replay := map[string]any{"system": "garbage", "hash_slot": hs, "payload_hex": hex.EncodeToString(data), "what": what}
 	var p *c13Panic
@@ -864,7 +901,7 @@ func (g *c13Garbage) feed(hs uint16, data []byte, what string) (string, *ev.Viol
 		if !bytes.Equal(snap, g.cur) || a != a0 {
 			v := &ev.Violation{Fingerprint: "C13:refused-garbage-had-side-effects:" + strings.SplitN(what, ":", 2)[0], System: "garbage",
 				Message: fmt.Sprintf("%s payload %x was refused (%v) but changed the state (applied %d -> %d): %s", what, data, err, a0, a, c13SnapDiff(g.cur, snap)), Replay: replay}
-			g.cur = snap
+			g.cur, g.curIdx = snap, a
 			return "refused-with-side-effect", v
 		}
 		return c13ErrClass(err), nil
@@ -879,12 +916,13 @@ func (g *c13Garbage) feed(hs uint16, data []byte, what string) (string, *ev.Viol
 		if err := g.node.sm.Restore(c13Ctx, multiraft.Snapshot{Index: g.idx, Term: 1, Data: append([]byte(nil), g.seedSnap...)}); err != nil {
 			panic(fmt.Sprintf("c13 harness: re-seeding failed: %v", err))
 		}
-		back, _ := g.node.state()
+		back, ba := g.node.state()
 		if !bytes.Equal(back, g.seedSnap) {
 			panic("c13 harness: re-seeding did not restore the seed snapshot")
 		}
-		g.cur = g.seedSnap
+		g.cur, a = g.seedSnap, ba
 	}
+	g.curIdx = a
 	return out, nil
 }
 
@@ -914,7 +952,6 @@ func c13RunGarbage(r *ev.R) {
 	thorough := r.Thorough()
 	// 1. truncations and single-byte mutations of every valid encoding of the full menu
 	e := r.NewEnum("garbage-truncations-and-mutations")
-	g := c13NewGarbage()
 	var encs []c13Cmd
 	for _, c := range c13Menu("full") {
 		if c.family != "malformed" {
@@ -930,22 +967,42 @@ func c13RunGarbage(r *ev.R) {
 	typesSeen := map[byte]bool{}
 	for _, c := range encs {
 		typesSeen[c.data[1]] = true
-		for cut := 0; cut < len(c.data); cut++ {
-			out, v := g.feed(c.hs, c.data[:cut], "truncation:"+c.kind())
-			report(v)
-			e.Case(fmt.Sprintf("t|%s|%d", c.label, cut), true, out)
-		}
-		for pos := 0; pos < len(c.data); pos++ {
-			for _, nv := range c13Mutations(c.data[pos], thorough) {
-				m := append([]byte(nil), c.data...)
-				m[pos] = nv
-				out, v := g.feed(c.hs, m, "mutation:"+c.kind())
-				report(v)
-				e.Case(fmt.Sprintf("m|%s|%d|%d", c.label, pos, nv), true, out)
-			}
-		}
 	}
-	g.node.destroy()
+	{
+		const workers = 8
+		var wg sync.WaitGroup
+		for w := 0; w < workers; w++ {
+			wg.Add(1)
+			go func(w int) {
+				defer wg.Done()
+				defer func() {
+					if p := recover(); p != nil {
+						r.HarnessError("garbage worker: %v", p)
+					}
+				}()
+				gw := c13NewGarbage()
+				defer func() { gw.node.destroy() }()
+				for ci := w; ci < len(encs); ci += workers {
+					c := encs[ci]
+					for cut := 0; cut < len(c.data); cut++ {
+						out, v := gw.feed(c.hs, c.data[:cut], "truncation:"+c.kind())
+						report(v)
+						e.Case(fmt.Sprintf("t|%s|%d", c.label, cut), true, out)
+					}
+					for pos := 0; pos < len(c.data); pos++ {
+						for _, nv := range c13Mutations(c.data[pos], thorough) {
+							m := append([]byte(nil), c.data...)
+							m[pos] = nv
+							out, v := gw.feed(c.hs, m, "mutation:"+c.kind())
+							report(v)
+							e.Case(fmt.Sprintf("m|%s|%d|%d", c.label, pos, nv), true, out)
+						}
+					}
+				}
+			}(w)
+		}
+		wg.Wait()
+	}
 	refused := e.Outcome("err:corrupt-value") + e.Outcome("err:invalid-argument") + e.Outcome("err:other")
 	r.Guard("garbage-mutations-refused", refused >= 1000, "refused truncations/mutations=%d", refused)
 	r.Guard("garbage-mutations-some-accepted", e.Outcome("accepted:changed")+e.Outcome("accepted:unchanged") >= 50, "mutations that are well-formed commands=%d", e.Outcome("accepted:changed")+e.Outcome("accepted:unchanged"))
@@ -1025,53 +1082,77 @@ func c13ReplayGarbage(r *ev.R, raw json.RawMessage) bool {
 
 // ---------------------------------------------------------------- test
 
-func TestVerifC13(t *testing.T) {
+func c13Setup(t *testing.T) (*ev.R, func()) {
 	r := ev.Start(t, "C13")
-	defer r.Finish()
-	defer func() {
-		if c13Base != "" {
-			_ = os.RemoveAll(c13Base)
-		}
-	}()
-	defer func() {
+	return r, func() {
 		if p := recover(); p != nil {
 			r.HarnessError("harness panic: %v", p)
 		}
-	}()
+		if c13Base != "" {
+			_ = os.RemoveAll(c13Base)
+		}
+		r.Finish()
+	}
+}
+
+func c13Guards(r *ev.R, s *c13Sys, res mc.Result) {
+	nf, fams := c13Count(&s.families)
+	nr, kinds := c13Count(&s.resultKinds)
+	r.Guard(s.name+"/families", nf >= 5, "command families exercised=%v (need valid, stale, conflict, malformed, notowned)", fams)
+	r.Guard(s.name+"/result-kinds", nr >= 5, "distinct one-per-batch results=%d %v (need ok, stale_meta and conditional results)", nr, kinds)
+	r.Guard(s.name+"/logs", res.Transitions >= 200, "command logs=%d", res.Transitions)
+	r.Guard(s.name+"/variants", s.partitionRuns.Load() >= 200 && s.restartRuns.Load() >= 200 && s.snapshotRuns.Load() >= 200,
+		"partition runs=%d restart runs=%d snapshot-restore runs=%d", s.partitionRuns.Load(), s.restartRuns.Load(), s.snapshotRuns.Load())
+	r.Guard(s.name+"/stale-inside-multi-command-batch", s.multiBatchWithStale.Load() >= 10, "multi-command batches containing a stale_meta result (split-and-replay candidates)=%d", s.multiBatchWithStale.Load())
+	r.Guard(s.name+"/refused-logs", s.refusedLogs.Load() >= 20, "logs ending in a refused command=%d", s.refusedLogs.Load())
+}
+
+func c13Assumptions(r *ev.R) {
+	r.Count("db_opens", c13Opens.Load())
+	r.Assume("a committed log contains a refused (malformed / not-owned) command only as its last applied entry: multiraft fail-stops the slot on an ApplyBatch error (slot.go applyCommittedEntries -> g.fail)")
+	r.Assume("after a refused batch the replica may hold the state of any log prefix that ends inside the batch (whole-batch atomicity or split-and-replay), never anything else")
+	r.Assume("the durable applied index may stay behind only for commands whose result is stale_meta (their write batch is not committed); it is compared by this rule, not for equality between partitions")
+}
+
+// TestVerifC13: quick = every log <=3 over the mini menu + every log <=2 over the core menu + garbage;
+// thorough = every log <=3 over the full menu + garbage.
+func TestVerifC13(t *testing.T) {
+	r, done := c13Setup(t)
+	defer done()
 	if rf := r.Replay(); rf != nil {
 		if c13ReplayGarbage(r, rf.Replay) {
 			return
 		}
 	}
-	var systems []*c13Sys
-	var results []mc.Result
-	if !r.Thorough() {
-		s, res := c13RunLogs(r, "logs-core-menu", "core", 3)
-		systems, results = append(systems, s), append(results, res)
-	} else {
-		s, res := c13RunLogs(r, "logs-full-menu", "full", 3)
-		systems, results = append(systems, s), append(results, res)
-		s, res = c13RunLogs(r, "logs-small-menu", "small", 4)
-		systems, results = append(systems, s), append(results, res)
+	type run struct {
+		name, menu string
+		depth      int
+	}
+	runs := []run{{"logs3-mini-menu", "mini", 3}, {"logs2-core-menu", "core", 2}}
+	if r.Thorough() {
+		runs = []run{{"logs3-full-menu", "full", 3}}
+	}
+	for _, x := range runs {
+		s, res := c13RunLogs(r, x.name, x.menu, x.depth)
+		if r.Replay() == nil {
+			c13Guards(r, s, res)
+		}
 	}
 	if r.Replay() != nil {
 		return
 	}
-	for i, s := range systems {
-		res := results[i]
-		nf, fams := c13Count(&s.families)
-		nr, kinds := c13Count(&s.resultKinds)
-		r.Guard(s.name+"/families", nf >= 5, "command families exercised=%v (need valid, stale, conflict, malformed, notowned)", fams)
-		r.Guard(s.name+"/result-kinds", nr >= 5, "distinct one-per-batch results=%d %v (need ok, stale_meta and conditional results)", nr, kinds)
-		r.Guard(s.name+"/logs", res.Transitions >= 500, "command logs=%d", res.Transitions)
-		r.Guard(s.name+"/variants", s.partitionRuns.Load() >= 500 && s.restartRuns.Load() >= 500 && s.snapshotRuns.Load() >= 500,
-			"partition runs=%d restart runs=%d snapshot-restore runs=%d", s.partitionRuns.Load(), s.restartRuns.Load(), s.snapshotRuns.Load())
-		r.Guard(s.name+"/stale-inside-multi-command-batch", s.multiBatchWithStale.Load() >= 20, "multi-command batches containing a stale_meta result (split-and-replay candidates)=%d", s.multiBatchWithStale.Load())
-		r.Guard(s.name+"/refused-logs", s.refusedLogs.Load() >= 20, "logs ending in a refused command=%d", s.refusedLogs.Load())
-	}
 	c13RunGarbage(r)
-	r.Count("db_opens", c13Opens.Load())
-	r.Assume("a committed log contains a refused (malformed / not-owned) command only as its last applied entry: multiraft fail-stops the slot on an ApplyBatch error (slot.go applyCommittedEntries -> g.fail)")
-	r.Assume("after a refused batch the replica may hold the state of any log prefix that ends inside the batch (whole-batch atomicity or split-and-replay), never anything else")
-	r.Assume("the durable applied index may stay behind only for commands whose result is stale_meta (their write batch is not committed); it is compared by this rule, not for equality between partitions")
+	c13Assumptions(r)
+}
+
+// TestVerifC13Depth4 (thorough only): every log <=4 over the small menu.
+func TestVerifC13Depth4(t *testing.T) {
+	r, done := c13Setup(t)
+	defer done()
+	s, res := c13RunLogs(r, "logs4-small-menu", "small", 4)
+	if r.Replay() != nil {
+		return
+	}
+	c13Guards(r, s, res)
+	c13Assumptions(r)
 }
